@@ -58,7 +58,7 @@ package cty
 //@   let self (mk.cty.Type (box<cty.typeTuple> t))
 //@   requires (and (wf_ty other) (wf_ty self))
 //@   ensures[C07] (= result (ty_eq self other))
-//@   loop 1 invariant (forall ((j Int)) (! (=> (and (<= (tuple_off self) j) (< j (+ (tuple_off self) $i))) (ty_eq (select (tuple_arr self) j) (select (tuple_arr other) (+ (- j (tuple_off self)) (tuple_off other))))) :pattern ((select (tuple_arr self) j))))
+//@   loop 1 invariant (forall ((j Int)) (! (=> (and (trig j) (<= (tuple_off self) j) (< j (+ (tuple_off self) $i))) (ty_eq (select (tuple_arr self) j) (select (tuple_arr other) (+ (- j (tuple_off self)) (tuple_off other))))) :pattern ((select (tuple_arr self) j))))
 //
 //@ func (cty.typeObject).Equals
 //@   tags C07
@@ -148,17 +148,17 @@ package cty
 //@   ensures[C07] exact: (= (= n n0) (conforms given want))
 //@   let same (=> (= n n0) (= (select $H<Slice> errs) (select (old $H<Slice>) errs)))
 //@   ensures[C07] unchanged: same
-//@   loop 1 invariant same
-//@   loop 2 invariant same
-//@   loop 3 invariant same
-//@   loop 4 invariant same
-//@   loop 1 invariant (and (>= n n0) (= (= n n0) (sub<String> $visited (obj_dom want))))
-//@   loop 2 invariant (and (>= n n0) (= (= n n0) (and (sub<String> (obj_dom given) (obj_dom want)) (sub<String> $visited (obj_dom given)))))
-//@   loop 3 invariant (and (>= n n0) (= (= n n0) (and (= (obj_dom given) (obj_dom want)) (forall ((k String)) (! (=> (select $visited k) (conforms (obj_aty given k) (obj_aty want k))) :pattern ((select $visited k)))))))
-//@   let tupconf (forall ((j Int)) (! (=> (and (<= (tuple_off want) j) (< j (+ (tuple_off want) $i))) (conforms (select (tuple_arr given) (+ (- j (tuple_off want)) (tuple_off given))) (select (tuple_arr want) j))) :pattern ((select (tuple_arr want) j))))
-//@   loop 4 invariant (>= n n0)
-//@   loop 4 invariant (=> (= n n0) tupconf)
-//@   loop 4 invariant (=> tupconf (= n n0))
+//@   loop 1 invariant[C07,C20,@obj] same
+//@   loop 2 invariant[C07,C20,@obj] same
+//@   loop 3 invariant[C07,C20,@obj] same
+//@   loop 4 invariant[C07,C20,@tup] same
+//@   loop 1 invariant[C07,C20,@obj] (and (>= n n0) (= (= n n0) (sub<String> $visited (obj_dom want))))
+//@   loop 2 invariant[C07,C20,@obj] (and (>= n n0) (= (= n n0) (and (sub<String> (obj_dom given) (obj_dom want)) (sub<String> $visited (obj_dom given)))))
+//@   loop 3 invariant[C07,C20,@obj] (and (>= n n0) (= (= n n0) (and (= (obj_dom given) (obj_dom want)) (forall ((k String)) (! (=> (select $visited k) (conforms (obj_aty given k) (obj_aty want k))) :pattern ((select $visited k)))))))
+//@   let tupconf (forall ((j Int)) (! (=> (and (trig j) (<= (tuple_off want) j) (< j (+ (tuple_off want) $i))) (conforms (select (tuple_arr given) (+ (- j (tuple_off want)) (tuple_off given))) (select (tuple_arr want) j))) :pattern ((select (tuple_arr want) j))))
+//@   loop 4 invariant[C07,C20,@tup] (>= n n0)
+//@   loop 4 invariant[C07,C20,@tup] (=> (= n n0) tupconf)
+//@   loop 4 invariant[C07,C20,@tup] (=> tupconf (= n n0))
 //
 //@ func (cty.Type).TestConformance
 //@   tags C07
@@ -171,4 +171,41 @@ package cty
 //@   requires (wf_ty t)
 //@   ensures[C07] (= result (has_dyn t))
 //@   loop 1 invariant (forall ((k String)) (! (=> (select $visited k) (not (has_dyn (obj_aty t k)))) :pattern ((select $visited k))))
-//@   loop 2 invariant (forall ((j Int)) (! (=> (and (<= (tuple_off t) j) (< j (+ (tuple_off t) $i))) (not (has_dyn (select (tuple_arr t) j)))) :pattern ((select (tuple_arr t) j))))
+//@   loop 2 invariant (forall ((j Int)) (! (=> (and (trig j) (<= (tuple_off t) j) (< j (+ (tuple_off t) $i))) (not (has_dyn (select (tuple_arr t) j)))) :pattern ((select (tuple_arr t) j))))
+//
+// ---- object type constructor ---------------------------------------------------------------------
+//
+//@ func cty.ObjectWithOptionalAttrs
+//@   tags C07 C06
+//@   requires (and (MapC<String~cty.Type>.ok (tmap attrTypes)) (forall ((k String)) (! (=> (select (tmap_dom attrTypes) k) (wf_ty (tmap_at attrTypes k))) :pattern ((select (tmap_dom attrTypes) k)))))
+//@   panics[C07,C17] (opt_undeclared attrTypes optional (Slice.len optional))
+//@   let nm $H<MapC<String~cty.Type>>
+//@   ensures[C07] shape: (and (is_obj_ty result) (not (= (obj_atys_ptr result) 0)))
+//@   ensures[C07] dom: (forall ((k String)) (! (= (select (obj_dom result) k) (exists ((k0 String)) (! (and (select (tmap_dom attrTypes) k0) (= (nfc k0) k)) :pattern ((select (tmap_dom attrTypes) k0))))) :pattern ((select (obj_dom result) k))))
+//@   ensures[C07] tys: (forall ((k String)) (! (=> (select (obj_dom result) k) (exists ((k0 String)) (! (and (select (tmap_dom attrTypes) k0) (= (nfc k0) k) (= (obj_aty result k) (tmap_at attrTypes k0))) :pattern ((select (tmap_dom attrTypes) k0))))) :pattern ((select (obj_dom result) k))))
+//@   ensures[C07] noopt: (=> (= (Slice.len optional) 0) (= (obj_opt result) empty<String>))
+//@   ensures[C07,C06] wfty: (wf_ty result)
+//@   loop 2 invariant (not (opt_undeclared attrTypes optional $i))
+//@   loop 1 invariant (MapC<String~cty.Type>.ok (select nm attrTypesNorm))
+//@   loop 1 invariant (forall ((k String)) (! (= (select (MapC<String~cty.Type>.dom (select nm attrTypesNorm)) k) (exists ((k0 String)) (! (and (select $visited k0) (= (nfc k0) k)) :pattern ((select $visited k0))))) :pattern ((select (MapC<String~cty.Type>.dom (select nm attrTypesNorm)) k))))
+//@   loop 1 invariant (forall ((k String)) (! (=> (select (MapC<String~cty.Type>.dom (select nm attrTypesNorm)) k) (exists ((k0 String)) (! (and (select $visited k0) (= (nfc k0) k) (= (select (MapC<String~cty.Type>.val (select nm attrTypesNorm)) k) (tmap_at attrTypes k0))) :pattern ((select $visited k0))))) :pattern ((select (MapC<String~cty.Type>.dom (select nm attrTypesNorm)) k))))
+//
+//@ func cty.Object
+//@   tags C07 C06
+//@   requires (and (MapC<String~cty.Type>.ok (tmap attrTypes)) (forall ((k String)) (! (=> (select (tmap_dom attrTypes) k) (wf_ty (tmap_at attrTypes k))) :pattern ((select (tmap_dom attrTypes) k)))))
+//@   ensures[C07] shape: (and (is_obj_ty result) (not (= (obj_atys_ptr result) 0)) (= (obj_opt result) empty<String>))
+//@   ensures[C07,C06] wfty: (wf_ty result)
+//@   ensures[C07] dom: (forall ((k String)) (! (= (select (obj_dom result) k) (exists ((k0 String)) (! (and (select (tmap_dom attrTypes) k0) (= (nfc k0) k)) :pattern ((select (tmap_dom attrTypes) k0))))) :pattern ((select (obj_dom result) k))))
+//@   ensures[C07] tys: (forall ((k String)) (! (=> (select (obj_dom result) k) (exists ((k0 String)) (! (and (select (tmap_dom attrTypes) k0) (= (nfc k0) k) (= (obj_aty result k) (tmap_at attrTypes k0))) :pattern ((select (tmap_dom attrTypes) k0))))) :pattern ((select (obj_dom result) k))))
+
+//
+// ---- type descriptions from JSON (C17: error or a well-formed type, never a panic) -------------
+//
+//@ func (*cty.Type).UnmarshalJSON
+//@   tags C17 C20
+//@   requires (not (= t 0))
+//@   writes cty.Type t
+//@   ensures[C17] ok: (=> (= result nil.Any) (wf_ty (select $H<cty.Type> t)))
+//@   loop 1 invariant (MapC<String~Unit>.ok (select $H<MapC<String~Unit>> declared))
+//@   loop 1 invariant (forall ((k String)) (! (= (select (MapC<String~Unit>.dom (select $H<MapC<String~Unit>> declared)) k) (exists ((k0 String)) (! (and (select $visited k0) (= (nfc k0) k)) :pattern ((select $visited k0))))) :pattern ((select (MapC<String~Unit>.dom (select $H<MapC<String~Unit>> declared)) k))))
+//@   loop 2 invariant (not (opt_undeclared atys optionals $i))
